@@ -293,6 +293,8 @@ func (e *transpEngine) Exec(line string) (string, string) {
 		time.Sleep(60 * time.Millisecond)
 		home(loc).Kill(tgt, false, "end") // its own system stops it: it now waits for its child
 		time.Sleep(80 * time.Millisecond)
+	case "tell-respawned":
+		tgt = p.target(home(loc), tname, false)
 	default:
 		tgt = p.target(home(loc), tname, op != "pipe-fail", op == "pipe-err")
 	}
@@ -342,6 +344,8 @@ func (e *transpEngine) Exec(line string) (string, string) {
 			switch op {
 			case "tell":
 				c.Tell(tref, &tpMsg{N: 7, Tag: "hi"})
+			case "tell-respawned":
+				c.Tell(tref, &tpMsg{N: 1, Tag: "a"})
 			case "tellv":
 				c.Tell(tref, tpVal{N: 5})
 			case "ask":
@@ -403,12 +407,29 @@ func (e *transpEngine) Exec(line string) (string, string) {
 				p.ev("caller onkilled ref=%s", p.refStr(m.Ref))
 			}
 		case *tpMsg:
+			if op == "tell-respawned" && m.N == 99 {
+				// a reference built afresh from address + path after the target was re-created (a reference object that
+				// has already delivered locally stays bound to the mailbox it found then — the old incarnation —
+				// and its mail is dead-lettered: that is not what is compared here)
+				c.Tell(mkRef(p.a, tgt), &tpMsg{N: 2, Tag: "again"})
+				return
+			}
 			p.ev("caller got %d/%s", m.N, m.Tag)
 		}
 	}), vivid.WithActorName(fmt.Sprintf("caller-%d", id)))
+	callerRef, _ := p.a.FindActor(p.addrA + fmt.Sprintf("/caller-%d", id))
 	select {
 	case <-done:
 	case <-time.After(2 * time.Second):
+	}
+	if op == "tell-respawned" && callerRef != nil {
+		// the target's own system stops it and creates a new actor under the same name
+		time.Sleep(120 * time.Millisecond)
+		home(loc).Kill(tgt, false, "end")
+		time.Sleep(150 * time.Millisecond)
+		p.target(home(loc), tname, false)
+		time.Sleep(50 * time.Millisecond)
+		p.a.Tell(callerRef, &tpMsg{N: 99, Tag: "go"})
 	}
 	wait := 250 * time.Millisecond
 	if op == "pipe-fail" || strings.HasPrefix(op, "watch") || strings.HasPrefix(op, "unwatch") {
@@ -440,6 +461,9 @@ func (e *transpEngine) Exec(line string) (string, string) {
 		if (strings.HasPrefix(op, "watch") || strings.HasPrefix(op, "unwatch")) && strings.HasPrefix(x, "target ") {
 			continue
 		}
+		if op == "tell-respawned" && (strings.HasPrefix(x, "target onkill") || strings.HasPrefix(x, "target terminated")) {
+			continue // the stop of the first incarnation is scaffolding
+		}
 		keep = append(keep, x)
 	}
 	sort.Strings(keep)
@@ -469,7 +493,7 @@ func (e *transpEngine) Generate(c *Ctx) {
 			p.stop()
 		}
 	}()
-	ops := []string{"tell", "tellv", "ask", "kill", "poison", "watch", "unwatch", "watch-twin", "unwatch-twin", "ping", "pipe-ok@local", "pipe-ok@remote", "pipe-ok@twin", "pipe-fail@local", "pipe-fail@remote", "pipe-fail@twin", "pipe-err@local", "pipe-err@remote", "pipe-err@twin", "kill-busy", "poison-busy", "watch-stopping"}
+	ops := []string{"tell", "tellv", "ask", "kill", "poison", "watch", "unwatch", "watch-twin", "unwatch-twin", "ping", "pipe-ok@local", "pipe-ok@remote", "pipe-ok@twin", "pipe-fail@local", "pipe-fail@remote", "pipe-fail@twin", "pipe-err@local", "pipe-err@remote", "pipe-err@twin", "kill-busy", "poison-busy", "watch-stopping", "tell-respawned"}
 	seen := map[string][2]string{}
 	for _, cfg := range []string{"codec", "registered"} {
 		for _, op := range ops {
